@@ -272,6 +272,32 @@ func (st *c10State) runCallerOps(ci int, ops []Op, late bool) {
 			default:
 				cl.end(err, "")
 			}
+		case "misc":
+			// the less common blocking calls, on a fid of their own: clone, Create, Wstat, Remove, and Auth (C09 only)
+			cl := st.begin(ci, i, "misc", fmt.Sprintf("misc/%d/%d", ci, i), late)
+			bad := ""
+			nf := clnt.FidAlloc()
+			_, err := clnt.Walk(fid, nf, nil)
+			if err == nil {
+				switch op.a(0) % 3 {
+				case 0:
+					if err = clnt.Create(nf, "made", 0o644, go9p.OWRITE, ""); err == nil && nf.Qid.Path != uint64(nf.Fid)^0x5555 {
+						bad = fmt.Sprintf("Create returned qid path %d for fid %d", nf.Qid.Path, nf.Fid)
+					}
+				case 1:
+					d := &go9p.Dir{Type: 0xFFFF, Dev: 0xFFFFFFFF, Mode: 0o600, Atime: 0xFFFFFFFF, Mtime: 0xFFFFFFFF, Length: ^uint64(0), Uidnum: 0xFFFFFFFF, Gidnum: 0xFFFFFFFF, Muidnum: 0xFFFFFFFF}
+					err = clnt.Wstat(nf, d)
+				case 2:
+					var af *go9p.Fid
+					if af, err = clnt.Auth(go9p.OsUsers.Uid2User(0), "tree"); err == nil {
+						err = clnt.Clunk(af)
+					}
+				}
+				if err == nil {
+					err = clnt.Remove(nf)
+				}
+			}
+			cl.end(err, bad)
 		case "rpcnb":
 			// ReqAlloc + the caller's own completion channel + Rpcnb + ReqFree (C09 only). Two requests share the
 			// channel; the first to complete is freed (its slot goes back to the client's cache, where other
